@@ -358,3 +358,126 @@ func TestC05(t *testing.T) {
 		rec.Extra["worker_restarts"] = wkClient.Restarts
 	}
 }
+
+// ---- running time grows in proportion to the input
+
+type scaleCase struct {
+	Family string
+	N      int // base size; the case is also run at 5*N
+}
+
+func scaleText(family string, n int) string {
+	var sb strings.Builder
+	switch family {
+	case "equ_chain": // s0 equ s1, s1 equ s2, ... used once
+		for i := 0; i < n; i++ {
+			fmt.Fprintf(&sb, "s%d equ s%d\n", i, i+1)
+		}
+		fmt.Fprintf(&sb, "s%d equ 1\ndat s0\n", n)
+	case "equ_fanout": // many symbols, one value that refers to all of them (longer than the expression limit: refused)
+		for i := 0; i < n; i++ {
+			fmt.Fprintf(&sb, "s%d equ 1\n", i)
+		}
+		sb.WriteString("x equ 0")
+		for i := 0; i < n; i++ {
+			fmt.Fprintf(&sb, "+s%d", i)
+		}
+		sb.WriteString("\ndat 1\n")
+	case "equ_many": // many independent symbols, each used once
+		for i := 0; i < n; i++ {
+			fmt.Fprintf(&sb, "s%d equ %d\n", i, i%7)
+		}
+		for i := 0; i < n; i += 10 {
+			fmt.Fprintf(&sb, "dat s%d\n", i)
+		}
+	case "labels": // every line labelled and referring to the next
+		for i := 0; i < n; i++ {
+			fmt.Fprintf(&sb, "l%d dat l%d\n", i, (i+1)%n)
+		}
+	case "lines":
+		for i := 0; i < n; i++ {
+			fmt.Fprintf(&sb, "dat %d, %d\n", i%100, i%7)
+		}
+	case "comments":
+		for i := 0; i < n; i++ {
+			fmt.Fprintf(&sb, "; comment line %d , with # some $ symbols\n", i)
+		}
+		sb.WriteString("dat 0\n")
+	case "for_flat":
+		fmt.Fprintf(&sb, "i for %d\ndat i\nrof\n", n)
+	case "for_blocks": // many sequential small blocks
+		for i := 0; i < n/8; i++ {
+			sb.WriteString("i for 2\ndat i\nrof\n")
+		}
+	case "one_label_many_names":
+		for i := 0; i < n; i++ {
+			fmt.Fprintf(&sb, "n%d\n", i)
+		}
+		sb.WriteString("dat n0\n")
+	}
+	return sb.String()
+}
+
+var scaleFamilies = []string{"equ_chain", "equ_fanout", "equ_many", "labels", "lines", "comments", "for_flat", "one_label_many_names"}
+
+func genScaleCase(t *rapid.T) scaleCase {
+	return scaleCase{Family: rapid.SampledFrom(scaleFamilies).Draw(t, "family"), N: rapid.SampledFrom([]int{12000, 16000, 10000}).Draw(t, "n")}
+}
+
+func judgeScaleCase(t testing.TB) func(c scaleCase, rec *hx.Rec) string {
+	return func(c scaleCase, rec *hx.Rec) string {
+		if c.N < 100 || c.N > 40000 {
+			return "malformed case"
+		}
+		cl := worker(t)
+		measure := func(n int) (int64, string) {
+			text := scaleText(c.Family, n)
+			best := int64(-1)
+			for r := 0; r < 3; r++ {
+				rs, st, err := cl.Call(wk.Request{Mode: 2, M: 8000, P: 8000, L: 1 << 30, D: 100, Text: []byte(text), CapMiB: 2048}, 120*time.Second)
+				if err != nil {
+					panic("INCOMPLETE: " + err.Error())
+				}
+				if st != wk.OK {
+					return 0, fmt.Sprintf("family %s with n=%d: no answer within 120 s (status %d)", c.Family, n, st)
+				}
+				if rs.Panic != "" || rs.OOM {
+					return 0, fmt.Sprintf("family %s with n=%d: panic or memory cap: %s", c.Family, n, clip(rs.Panic))
+				}
+				if best < 0 || rs.ElapsedUs < best {
+					best = rs.ElapsedUs
+				}
+			}
+			return best, ""
+		}
+		t1, msg := measure(c.N)
+		if msg != "" {
+			return msg
+		}
+		t5, msg := measure(5 * c.N)
+		if msg != "" {
+			return msg
+		}
+		// linear growth gives a factor of about 5; quadratic 25. Only judged when the larger run is long enough to be measured reliably.
+		if t5 > 300000 && t5 > 12*t1 {
+			return fmt.Sprintf("family %s: %d units take %d ms but %d units take %d ms (x%.1f for x5 input): time is not proportional to the size of the input", c.Family, c.N, t1/1000, 5*c.N, t5/1000, float64(t5)/float64(t1))
+		}
+		if rec != nil {
+			rec.Case(true, hx.HashJSON(c), func() any {
+				return map[string]any{"family": c.Family, "n": c.N, "ms_at_n": t1 / 1000, "ms_at_5n": t5 / 1000}
+			}, "family_"+c.Family)
+		}
+		return ""
+	}
+}
+
+func TestC05_Scaling(t *testing.T) {
+	if hx.Shard() != 0 {
+		t.Skip("timing comparisons run on one shard only (they need a quiet core)")
+	}
+	hx.Run(t, hx.Prop[scaleCase]{
+		ID: "C05", Sub: "scaling", Checks: hx.Scale(9, 48),
+		Rule: "time proportional to input size: structured families (EQU chain, one EQU referring to n symbols, n independent EQUs, n labelled lines, n plain lines, n comment lines, one flat FOR of n, n label names on one instruction) are assembled at n and at 5n in the isolated worker (best of three runs each); it is a violation when the larger run takes more than 300 ms and more than 12 times the smaller one (linear: about 5, quadratic: 25). Every case is non-trivial; distinct by (family, n).",
+		Gen: genScaleCase, Judge: judgeScaleCase(t),
+	})
+}
